@@ -197,9 +197,14 @@ fn set_out(vars: &mut BTreeMap<String, String>, out: &Option<String>, v: Option<
     }
 }
 
+/// "an integer non-zero exit value makes the run fail": an optional sign and decimal digits, not all of them zero -
+/// whatever the machine type an implementation parses it into
 fn exit_fails(v: &Option<String>) -> bool {
     match v {
-        Some(s) => matches!(s.parse::<i32>(), Ok(n) if n != 0),
+        Some(s) => {
+            let digits = s.strip_prefix('+').or_else(|| s.strip_prefix('-')).unwrap_or(s);
+            !digits.is_empty() && digits.chars().all(|c| c.is_ascii_digit()) && digits.chars().any(|c| c != '0')
+        }
         None => false,
     }
 }
@@ -628,7 +633,7 @@ fn gen_answer(rng: &mut Rng, n_lines: usize, weights: &[u32; 6]) -> Ans {
         4 => Ans::Crash(format!("crash {}", rng.below(100))),
         _ => Ans::Exit(match rng.below(7) {
             // (other spellings of zero and of small numbers: the value is parsed as an integer)
-            6 => Some(rng.pick(&["00", "-0", "+0", "+1", "007", " 0", "0 "]).to_string()),
+            6 => Some(rng.pick(&["00", "-0", "+0", "+1", "007", " 0", "0 ", "2147483647", "2147483648", "-2147483649", "4294967296", "99999999999999999999999999999999999999999"]).to_string()),
             0 => None,
             1 => Some("0".to_string()),
             2 => Some(rng.range(1, 200).to_string()),
